@@ -62,6 +62,8 @@ def gen_plan(rng, tier, index):
                 fault = rng.pick([['enospc_after', rng.pick([0, 10, 100, 600, 3000])], ['eio_on_write', rng.randint(1, 6)]])
             fops.append({'op': 'save', 't': rng.randrange(1000), 'target': rng.wpick(TARGETS), 'ft': rng.pick(['hdf5', 'pkl']),
                          'overwrite': rng.chance(0.5), 'fault': fault, 'crash': rng.chance(0.5), 'p': rng.randrange(1000)})
+        elif rng.chance(0.25):
+            fops.append({'op': 'mutate', 't': rng.randrange(1000), 'seed': rng.randrange(10 ** 6)})
         else:
             fops.append({'op': 'load', 'p': rng.randrange(1000), 'via': rng.pick(['path', 'handle', 'path'])})
     plan['ops'] = fops
@@ -368,6 +370,8 @@ def execute(plan, ctx):
         for o in plan['ops']:
             if o['op'] == 'save':
                 _do_save(ctx, pool, fs, files, objs, kind, o)
+            elif o['op'] == 'mutate':
+                _do_mutate(ctx, pool, objs, kind, o)
             else:
                 _do_load(ctx, pool, fs, files, kind, o)
         # final sweep: every acknowledged file still loads to its twin
@@ -419,6 +423,31 @@ def _load_and_compare(ctx, pool, fs, e, kind, source, route):
         return
     _compare(ctx, e, loaded, route)
     ctx.behaviour('load', kind, e['ft'], e['via'], route)
+
+
+def _do_mutate(ctx, pool, objs, kind, o):
+    """a documented in-place operation on a live object between file operations: files written earlier must keep holding
+    the object as it was when it was saved"""
+    slot = objs[o['t'] % len(objs)]
+    obj = slot.obj
+    r = random.Random(o['seed'])
+    try:
+        if kind == 'rdms':
+            perm = list(range(obj.n_cond))
+            r.shuffle(perm)
+            obj.reorder(perm)
+        elif kind == 'data':
+            keys = sorted(obj.obs_descriptors.keys())
+            if not keys:
+                return
+            obj.sort_by(keys[r.randrange(len(keys))])
+        else:
+            return
+    except Exception:
+        return
+    ctx.tick('op', op='mutate', slot=slot.sid)
+    pool.sweep('mutate-between-file-ops', target=slot.sid, inplace=True)
+    ctx.behaviour('mutate', kind)
 
 
 def _do_load(ctx, pool, fs, files, kind, o):
@@ -537,7 +566,11 @@ def _do_save(ctx, pool, fs, files, objs, kind, o):
     if existing_path and ft == 'hdf5' and not ow:
         ctx.violation('fs_model.overwrite', f'save:{kind}:hdf5:existing:not-refused',
                       f'save to an existing HDF5 path with overwrite=False did not refuse')
-    entry.update({'twin': twin_before, 'obj': obj, 'via': target, 'overwrite': ow, 'kind': kind})
+    try:
+        frozen = obj.copy() if hasattr(obj, 'copy') else obj
+    except Exception:
+        frozen = obj
+    entry.update({'twin': twin_before, 'obj': frozen, 'via': target, 'overwrite': ow, 'kind': kind})
     if fault_fired:
         ctx.probe('write_fault_swallowed')    # allowed only if the file nevertheless holds the object (checked by loads)
     if isinstance(dest, str) and o['crash']:
